@@ -15,6 +15,8 @@
 
 uint64_t g_seed = 1;
 uint64_t g_case = 0;
+uint64_t g_outer_case = 0;   /* nested runs: case index of the enclosing case (used for replay) */
+int g_nested = 0;
 const char *g_check = "";
 static int g_nviol = 0;
 
@@ -232,7 +234,7 @@ int v_run_cases(case_fn fn, void *ctx, uint64_t first, uint64_t count, uint64_t 
     if (!stride) stride = 1;
     for (uint64_t k = 0; k < count; ++k) {
         uint64_t idx = first + k * stride;
-        g_case = idx;
+        g_case = g_nested ? g_outer_case : idx;
         g_sh->api[0] = 0; g_sh->ctx[0] = 0;
         if (o->no_fork) { fn(idx, ctx); v_count_flush(); fflush(stdout); ++ran; continue; }
         int attempt = 0;
@@ -279,7 +281,8 @@ int v_run_cases(case_fn fn, void *ctx, uint64_t first, uint64_t count, uint64_t 
             char tail[6000];
             read_tail(errpath, tail, sizeof(tail));
             jb_t j; jb_init(&j); jb_obj_begin(&j);
-            jb_str(&j, "t", "x"); jb_str(&j, "check", g_check); jb_u64(&j, "seed", g_seed); jb_u64(&j, "idx", idx);
+            jb_str(&j, "t", "x"); jb_str(&j, "check", g_check); jb_u64(&j, "seed", g_seed); jb_u64(&j, "idx", g_nested ? g_outer_case : idx);
+            if (g_nested) jb_u64(&j, "inner", idx);
             jb_str(&j, "how", how); jb_str(&j, "api", g_sh->api); jb_str(&j, "ctx", g_sh->ctx); jb_str(&j, "stderr", tail);
             jb_obj_end(&j); jb_emit(&j); jb_free(&j);
         }
@@ -287,7 +290,7 @@ int v_run_cases(case_fn fn, void *ctx, uint64_t first, uint64_t count, uint64_t 
     unlink(errpath);
     sigprocmask(SIG_SETMASK, &old, NULL);
     jb_t j; jb_init(&j); jb_obj_begin(&j);
-    jb_str(&j, "t", "done"); jb_u64(&j, "cases", ran);
+    jb_str(&j, "t", g_nested ? "inner-done" : "done"); jb_u64(&j, "cases", ran);
     jb_obj_end(&j); jb_emit(&j); jb_free(&j);
     fflush(stdout);
     return 0;
